@@ -280,10 +280,16 @@ theorem woodbury_model {n k m : Nat} (d : Fin n → α) (hd : ∀ i, d i ≠ 0) 
 
 /-! ## Selection and trace -/
 
+theorem cholEv_no_cg (n : Nat) (e : Ev) (h : e ∈ cholEv n) : e.isCg = false := by
+  unfold cholEv at h
+  split at h
+  · simp at h
+  · simp at h; subst h; rfl
+
 theorem cholTrace_no_cg : ∀ (op : Op) (e : Ev), e ∈ cholTrace op → e.isCg = false := by
   intro op
   induction op with
-  | gen n | addedDiag n | lrrad n k c | kpadloConst a b => intro e h; simp [cholTrace] at h; subst h; rfl
+  | gen n | addedDiag n | lrrad n k c | kpadloConst a b => intro e h; exact cholEv_no_cg _ e (by simpa [cholTrace] using h)
   | diag n | ident n | tri n | chol n => intro e h; simp [cholTrace] at h
   | kron a b iha ihb =>
     intro e h; simp only [cholTrace, List.mem_append] at h
@@ -310,8 +316,8 @@ theorem trace_no_cg_of_fast_off (s : Settings) (h : s.fastSolves = false) :
   have hs : ∀ n, selectSolve false n s = .cholesky := fun n => by simp [selectSolve, h]
   intro op
   induction op with
-  | gen n => intro e he; simp [trace, hs] at he; subst he; rfl
-  | addedDiag n => intro e he; simp [trace, hs] at he; subst he; rfl
+  | gen n => intro e he; exact cholEv_no_cg _ e (by simpa [trace, hs] using he)
+  | addedDiag n => intro e he; exact cholEv_no_cg _ e (by simpa [trace, hs] using he)
   | diag n | ident n | tri n | chol n => intro e he; simp [trace] at he
   | lrrad n k c =>
     intro e he; simp only [trace] at he
@@ -322,7 +328,7 @@ theorem trace_no_cg_of_fast_off (s : Settings) (h : s.fastSolves = false) :
     intro e he; simp only [trace, hs] at he; exact cholTrace_no_cg (.kron3 a b c) e (by simpa [cholTrace] using he)
   | block k base _ => intro e he; simp only [trace, hs] at he; exact cholTrace_no_cg base e he
   | brep base _ => intro e he; simp only [trace, hs] at he; exact cholTrace_no_cg base e he
-  | kpadloConst a b _ _ => intro e he; simp [trace, hs] at he; subst he; rfl
+  | kpadloConst a b _ _ => intro e he; exact cholEv_no_cg _ e (by simpa [trace, hs] using he)
 
 /-- A CG run anywhere in the trace of `op.solve` implies the TOP-LEVEL selection was iterative:
 fast solves on and `size > max_cholesky_size`. -/
@@ -341,14 +347,14 @@ theorem trace_cg_imp_iterative (s : Settings) (op : Op) (e : Ev) (he : e ∈ tra
     refine ⟨rfl, ?_⟩
     cases hsel : selectSolve false n s with
     | iterative => exact sel n hsel
-    | cholesky => simp [trace, hsel] at he; subst he; cases hc
-    | structured => simp [trace, hsel] at he; subst he; cases hc
+    | cholesky => exact (nocg _ (cholEv_no_cg _) (by simpa [trace, hsel] using he)).elim
+    | structured => exact (nocg _ (cholEv_no_cg _) (by simpa [trace, hsel] using he)).elim
   | addedDiag n =>
     refine ⟨rfl, ?_⟩
     cases hsel : selectSolve false n s with
     | iterative => exact sel n hsel
-    | cholesky => simp [trace, hsel] at he; subst he; cases hc
-    | structured => simp [trace, hsel] at he; subst he; cases hc
+    | cholesky => exact (nocg _ (cholEv_no_cg _) (by simpa [trace, hsel] using he)).elim
+    | structured => exact (nocg _ (cholEv_no_cg _) (by simpa [trace, hsel] using he)).elim
   | diag n | ident n | tri n | chol n => simp [trace] at he
   | lrrad n k c =>
     simp only [trace] at he
@@ -390,7 +396,7 @@ theorem trace_cg_imp_iterative (s : Settings) (op : Op) (e : Ev) (he : e ∈ tra
     refine ⟨rfl, ?_⟩
     cases hsel : selectSolve false (a.size * b.size) s with
     | iterative => exact sel _ hsel
-    | cholesky => simp [trace, hsel] at he; subst he; cases hc
-    | structured => simp [trace, hsel] at he; subst he; cases hc
+    | cholesky => exact (nocg _ (cholEv_no_cg _) (by simpa [trace, hsel] using he)).elim
+    | structured => exact (nocg _ (cholEv_no_cg _) (by simpa [trace, hsel] using he)).elim
 
 end LinOp.C04
